@@ -1127,7 +1127,7 @@ pub fn run(ctx: &Ctx) {
         }
     }
     let (cases, depth, steps) = match ctx.tier {
-        Tier::Quick => (3000, 2, 8),
+        Tier::Quick => (20000, 2, 8),
         Tier::Thorough => (300000, 3, 20),
     };
     let enc = |c: &Case| serde_json::to_value(c).unwrap_or(Value::Null);
